@@ -2570,17 +2570,45 @@ def reregistration_keeps_every_method_once(ctx):
     anew from the remaining methods holds."""
     import dataclasses
 
-    from ..metainterp import HostFn, HostInterp, Raised, Record
+    from ..metainterp import HostFn, HostInterp, Instance, Raised, Record
     from .common import method_table_writers
 
     repo = ctx.repo
     oc = A.function_class(repo)
     sc = A.signature_class(repo)
+    writers = {m.name for m, w, st in method_table_writers(ctx) if w.attr == "_defns"}
+    # ... also through a local alias of the table (`defns = self._defns` ... `defns[sig] = fn`)
+    for m in oc.methods.values():
+        r = recv_name(m)
+        aliases = {t.id for st in ast.walk(m.node) if isinstance(st, ast.Assign) and is_self_attr(st.value, "_defns", selfname=r) for t in st.targets if isinstance(t, ast.Name)}
+        if aliases and any(isinstance(x, ast.Subscript) and isinstance(x.ctx, (ast.Store, ast.Del)) and isinstance(x.value, ast.Name) and x.value.id in aliases for x in ast.walk(m.node)):
+            writers.add(m.name)
+
+    def reaches_writer(m, seen=None):
+        """methods of the class that m calls on its receiver, transitively, which write the own table"""
+        seen = seen if seen is not None else set()
+        out = set()
+        r = recv_name(m)
+        for c in ast.walk(m.node):
+            if isinstance(c, ast.Call) and is_self_attr(c.func, selfname=r) and c.func.attr in oc.methods and c.func.attr not in seen:
+                seen.add(c.func.attr)
+                callee = oc.methods[c.func.attr]
+                sub = reaches_writer(callee, seen)
+                if callee.name in writers or sub:
+                    out |= {callee.name} | sub
+        return out
+
     cands = []
-    for m, w, st in method_table_writers(ctx):
-        if w.attr == "_defns" and m not in cands and any(isinstance(n, ast.Name) and n.id == sc.name for n in ast.walk(m.node)):
+    helpers = {}
+    for m in oc.methods.values():
+        if m.name == "__init__" or not any(isinstance(n, ast.Name) and n.id == sc.name for n in ast.walk(m.node)):
+            continue
+        hs = reaches_writer(m)
+        if m.name in writers or hs:
             cands.append(m)
+            helpers[m.name] = hs
     ctx.require(cands, f"{oc.key}: no method extracts a signature and writes the own table")
+    raw = repo.raw_methods(oc)
 
     @dataclasses.dataclass(frozen=True)
     class Sig:
@@ -2608,20 +2636,23 @@ def reregistration_keeps_every_method_once(ctx):
         for label, own in scenarios.items():
             before = {**other, **own}
             log = []
-            me = Record(_defns=dict(before), mixins=[], children=[], linkback=False, allow_replacement=True, _locked=False, _compiled=True, name="f")
+            # the registering method and the helpers through which it writes the table are interpreted; every other
+            # method of the class is a stub that records its call
+            me = Instance(oc.name, {k: v for k, v in raw.items() if k == m.name or k in helpers[m.name]})
+            me.__dict__.update(_defns=dict(before), mixins=[], children=[], linkback=False, allow_replacement=True, _locked=False, _compiled=True, name="f")
             for o in oc.methods.values():
-                if o is not m:
-                    setattr(me, o.name, HostFn(lambda *a, _n=o.name, **k: log.append(_n)))
+                if o is not m and o.name not in helpers[m.name]:
+                    me.__dict__[o.name] = HostFn(lambda *a, _n=o.name, **k: log.append(_n))
             new_fn = Record(name="new", sig=S(0))
             genv = {
                 sc.name: Record(extract=HostFn(lambda fn: fn.sig)),
                 "replace": HostFn(dataclasses.replace),
                 "dataclasses": Record(replace=HostFn(dataclasses.replace)),
             }
-            hi = HostInterp({}, me, {}, globals_env=genv, classes={}, functions={})
+            hi = HostInterp(me._methods, me, {}, globals_env=genv, classes={}, functions={})
             args = [me, new_fn] + [0 for p in params[1:]]
             try:
-                hi.call_function(m.node, args, {}, {})
+                hi.call_function(raw[m.name], args, {}, {})
             except Raised as e:
                 problems.append(f"[{label}] the registration raises {getattr(e, 'value', e)!r}")
                 continue
